@@ -26,7 +26,7 @@ from dataclasses import dataclass, field
 from typing import Any, Callable, Iterable, Optional
 
 from .absval import (
-    BoundV, CharSet, ClassV, EnumV, FuncV, HObj, IntSet, LambdaV, OneOf, Opaque, Ref, SeqStr, Text, Unknown, is_concrete, new_text,
+    BoundV, CharSet, ClassV, EnumV, FuncV, HObj, IntSet, LambdaV, OneOf, Opaque, Ref, SeqStr, Term, Text, Unknown, is_concrete, new_text,
 )
 from .core import AnalysisError
 from .pymodel import ClassInfo, FuncInfo, ModuleInfo, PyModel
@@ -354,6 +354,17 @@ class Interp:
         return res
 
     def e_Compare(self, e, st):
+        hook = self.probes.get("compare")
+        if hook is not None and len(e.ops) == 1:
+            def f(l, s):
+                def g(r, s2):
+                    if isinstance(l, (Term, BoundV)) or isinstance(r, (Term, BoundV)):
+                        v = hook(self, e.ops[0], l, r, s2)
+                        if v is not None:
+                            return [(v, s2)]
+                    return [(b, s3) for b, s3 in self.B.compare(self, e.ops[0], l, r, s2, e.left, e.comparators[0])]
+                return self.bind(self.eval(e.comparators[0], s), g)
+            return self.bind(self.eval(e.left, st), f)
         return [(b, s) for b, s in self.cond(e, st)]
 
     def e_IfExp(self, e, st):
@@ -886,6 +897,9 @@ class Interp:
             return self.B.call_builtin(self, fv, args, kwargs, st, node)
         if isinstance(fv, LambdaV):
             return self.call_lambda(fv, args, kwargs, st)
+        if isinstance(fv, Term):
+            kw = tuple(sorted((k, self.B.freeze_term(self, v, st)) for k, v in kwargs.items()))
+            return [(Term("call", (fv,) + tuple(self.B.freeze_term(self, a, st) for a in args) + ((("kw",) + kw,) if kw else ())), st)]
         if isinstance(fv, Opaque):
             hook = self.probes.get("call:" + fv.cls) or self.probes.get("call:*")
             if hook:
